@@ -1,5 +1,5 @@
 (* C17 property theorems: style registry (token model) and three-level style resolution (sheet core). *)
-From VF Require Import Base.Prelude Generated.Consts C17.Model C17.Proofs Sheet.Model Sheet.Proofs.
+From VF Require Import Base.Prelude Generated.Consts C17.Model C17.Proofs C17.Dedup Sheet.Model Sheet.Proofs.
 
 Theorem C17_get_new : forall k reg id reg', new_style k reg = Ok (id, reg') ->
   get_style reg' id = Some k /\ valid_id reg' id = true.
@@ -19,6 +19,27 @@ Theorem C17_history_stable : forall ks reg ids reg', run_styles ks reg = (ids, r
   forall j, valid_id reg j = true -> get_style reg' j = get_style reg j /\ valid_id reg' j = true.
 Proof. exact run_styles_stable. Qed.
 Print Assumptions C17_history_stable.
+
+(* deduplicating, at full strength: after any history of registrations from the initial table no definition is
+   held twice, and two requests of one history (that were not refused: id >= 0) received the same id exactly when
+   they asked for the same (normalised) definition *)
+Theorem C17_history_dedup : forall ks ids reg', run_styles ks init_reg = (ids, reg') ->
+  NoDup reg' /\
+  forall n m a b ka kb, nth_error ids n = Some a -> nth_error ids m = Some b ->
+    nth_error ks n = Some ka -> nth_error ks m = Some kb -> 0 <= a -> 0 <= b ->
+    (a = b <-> ka = kb).
+Proof. exact history_dedup. Qed.
+Print Assumptions C17_history_dedup.
+
+(* every id handed out during a history denotes, in the final table, the definition asked for at that point *)
+Theorem C17_history_issued : forall ks reg ids reg', run_styles ks reg = (ids, reg') ->
+  forall n id k, nth_error ids n = Some id -> nth_error ks n = Some k -> 0 <= id ->
+  get_style reg' id = Some k /\ valid_id reg' id = true.
+Proof. exact run_styles_issued. Qed.
+Print Assumptions C17_history_issued.
+
+Example C17_dedup_ex : run_styles [7; 9; 7; 0; 9] init_reg = ([1; 2; 1; 0; 2], [0; 7; 9]).
+Proof. vm_compute. reflexivity. Qed.
 
 (* resolution order: the explicit cell style, otherwise the row's, otherwise the column's *)
 Theorem C17_resolve : forall sh col rw,
